@@ -136,6 +136,45 @@ def observe(out):
     }
 
 
+class watch_unlocked:
+    """Schedule probe: a reader (what `jade show-status` does) is run right after every file write that
+    Cluster makes while the cluster lock is NOT held; what it reads goes to `sink` as (file, snapshot).
+    Writes made under the lock cannot be observed by a reader, so they are skipped."""
+
+    def __init__(self, out, sink):
+        self.out, self.sink = out, sink
+
+    def __enter__(self):
+        from jade.jobs.cluster import Cluster
+        self.cls = Cluster
+        self.orig = Cluster.__dict__["_serialize_file"]
+        orig_fn = Cluster._serialize_file
+        out, sink = self.out, self.sink
+
+        def probe(text, filename):
+            orig_fn(text, filename)
+            if os.path.dirname(os.path.abspath(filename)) == os.path.abspath(out) and \
+                    not os.path.exists(os.path.join(out, "cluster_config.json.lock")):
+                sink.append((os.path.basename(filename), observe(out)))
+        Cluster._serialize_file = staticmethod(probe)
+        return self
+
+    def __exit__(self, *a):
+        self.cls._serialize_file = self.orig
+
+
+def unlocked_problems(ops, mid):
+    """mid: [(op index, file written, snapshot read right after it)] -> (signature, message)"""
+    p = []
+    for k, fname, snap in mid:
+        inv = [x for x in inv_problems(snap) if x[0] != "version-file"]
+        if inv:
+            p.append((f"status-inv@unlocked-write:{ops[k]['op']}",
+                      f"op {k} ({ops[k]['op']}) wrote {fname} without holding the cluster lock; a reader scheduled right after "
+                      f"that write sees: {inv[0][1]}"))
+    return p
+
+
 class Rig:
     """One real Cluster on a real directory."""
 
@@ -147,6 +186,8 @@ class Rig:
         self.cfg = jadeenv.make_config(sc)
         self.out = tempfile.mkdtemp(prefix="st_", dir=tmp)
         self.cl = Cluster.create(self.out, self.cfg)
+        self.mid = []      # (op index, file, snapshot) read by the schedule probe
+        self.nops = 0
 
     def close(self):
         shutil.rmtree(self.out, ignore_errors=True)
@@ -156,8 +197,13 @@ class Rig:
 
     def apply(self, op):
         """Execute one operation on the real Cluster.  -> None | 'EAssert' | 'EKey' | 'EValue'"""
+        sink = []
+        k = self.nops
+        self.nops += 1
         try:
-            self._apply(op)
+            with watch_unlocked(self.out, sink):
+                self._apply(op)
+            self.mid += [(k, f, sn) for f, sn in sink]
             return None
         except AssertionError:
             err = "EAssert"
@@ -220,8 +266,9 @@ class Rig:
             raise RuntimeError(k)
 
 
-def run_history(spec, ops, tmp):
-    """-> (snapshots [after create, after each successful op], error or None, ops actually executed)"""
+def run_history(spec, ops, tmp, mid=None):
+    """-> (snapshots [after create, after each successful op], error or None); `mid` (a list) receives
+    what the schedule probe read after unlocked writes"""
     rig = Rig(spec, tmp)
     try:
         snaps = [observe(rig.out)]
@@ -231,6 +278,8 @@ def run_history(spec, ops, tmp):
             if err is not None:
                 break
             snaps.append(observe(rig.out))
+        if mid is not None:
+            mid.extend(rig.mid)
         return snaps, err
     finally:
         rig.close()
@@ -298,6 +347,13 @@ def mono_problems(a, b):
         p.append(("complete-reverted", "is_complete went from true to false without a resubmission"))
     if a["is_canceled"] and not b["is_canceled"]:
         p.append(("canceled-reverted", "is_canceled went from true to false"))
+    return p + version_problems(a, b)
+
+
+def version_problems(a, b):
+    """a observed before b (resubmissions in between allowed): versions never decrease and increase
+    strictly when the file they version differs"""
+    p = []
     if b["cfg_version"] < a["cfg_version"] or b["js_version"] < a["js_version"]:
         p.append(("version-decreased", "a version number decreased"))
     if _cfg_part(a) != _cfg_part(b) and not b["cfg_version"] > a["cfg_version"]:
@@ -328,8 +384,8 @@ def history_problems(ops, snaps, err, rows_after=None):
             partial = partial or _partial_resubmit(ops[i - 1], snaps[i - 1])
             if s["is_complete"]:
                 p.append(("resubmit-still-complete", "is_complete still true after prepare_for_resubmission"))
-            if not (s["cfg_version"] > snaps[i - 1]["cfg_version"] and s["js_version"] > snaps[i - 1]["js_version"]):
-                p.append(("resubmit-version", "prepare_for_resubmission did not increase both versions"))
+            for sig, msg in version_problems(snaps[i - 1], s):
+                p.append(("monotone:" + sig, f"across the resubmission (op {i}): {msg}"))
         inv = inv_problems(s, rows)
         counted = [x for x in inv if x[0] in ("submitted-count", "counters-order")]
         if counted and partial:
@@ -526,7 +582,7 @@ def gen_valid_history(rng, tmp, max_ops=10, spec=None):
                 rows -= set(op["rerun"])
             rows_after.append(rows)
             m.rows = rows
-        return spec, ops, snaps, err, rows_after
+        return spec, ops, snaps, err, rows_after, list(rig.mid)
     finally:
         rig.close()
 
@@ -722,7 +778,7 @@ class Submission:
         self.fake = jadeenv.FakeSlurm()
         self._sm, self._orig = sm, sm.run_command
         sm.run_command = self.fake
-        self.ops, self.snaps, self.rows_after, self.events = [], [], [], []
+        self.ops, self.snaps, self.rows_after, self.events, self.mid = [], [], [], [], []
         self.error = None
         self.batches = {}       # index -> {"jobs": [...], "left": [...], "id": str}
         cfg = jadeenv.make_config(sc)
@@ -858,7 +914,10 @@ class Submission:
         rerun = rs._get_jobs_to_resubmit(cl, self.out, failed, missing, successful)
         upd = rs._update_with_blocking_jobs(rerun, self.out)
         rs._reset_results(self.out, rerun)
-        cl.prepare_for_resubmission(rerun, upd)
+        sink = []
+        with watch_unlocked(self.out, sink):
+            cl.prepare_for_resubmission(rerun, upd)
+        self.mid += [(len(self.ops), f, sn) for f, sn in sink]
         partial = any(j["state"] == "not_submitted" and j["name"] not in rerun for j in before["jobs"])
         self.record({"op": "resubmit", "rerun": sorted(rerun, key=idx), "upd": {n: sorted(b, key=idx) for n, b in upd.items()},
                      "options": {"failed": failed, "missing": missing, "successful": successful}, "partial": partial})
@@ -953,7 +1012,7 @@ def run_submission(rng, tmp, spec=None, sc=None, script=None, max_procs=10):
                 resubmits += 1
                 sub.resubmit(*st[1:])
         return {"spec": spec, "scenario": sc, "ops": sub.ops, "snaps": sub.snaps, "rows_after": sub.rows_after,
-                "error": sub.error, "events": sub.events}
+                "error": sub.error, "events": sub.events, "mid": sub.mid}
     finally:
         sub.close()
 
@@ -972,3 +1031,26 @@ def directed_submissions():
         ("chain-to-completion-and-resubmit", chain, mk(chain, 2, None),
          ["work", "try", "work", "try", "work", "try", "work", "try", "try", ("resubmit", True, True, False), "work", "try", "work", "try"]),
     ]
+
+
+# ---- exhaustive small scope: every round over a two-job table from five base states ------------------------
+def exhaustive_rounds():
+    """yields (spec, prefix + [op]) for all combinations of submitted lists (duplicates included),
+    completed sets, pre-mutations, canceled lists and blocked entries over {j1, j2 (blocked by j1)}"""
+    import itertools
+    J = lambda n, deps=(), cancel=False: {"name": n, "deps": list(deps), "cancel": cancel}
+    R = lambda **kw: dict({"op": "round", "pre": [], "submitted": [], "blocked": [], "canceled": [], "completed": [],
+                           "hpc": [], "batch": 2, "new_rows": [], "aliased": True}, **kw)
+    spec = [J("j1"), J("j2", ["j1"], True)]
+    b1 = [R(submitted=["j1"], blocked=[["j2", ["j1"]]], hpc=["100"])]
+    b3 = [R(submitted=["j1", "j2"], hpc=["100"])]
+    bases = [[], b1, b1 + [R(completed=["j1"], pre=[["shrink", "j2", []]], new_rows=["j1"])], b3,
+             b3 + [R(completed=["j1", "j2"], new_rows=["j1", "j2"])]]
+    subs = [[], ["j1"], ["j2"], ["j1", "j1"], ["j1", "j2"], ["j2", "j1"], ["j2", "j2"]]
+    comps = [[], ["j1"], ["j2"], ["j1", "j2"]]
+    pres = [[], [["cancel", "j2"]], [["shrink", "j2", []]]]
+    cancs = [[], ["j2"]]
+    blks = [[], [["j2", ["j1"]]], [["j2", []]]]
+    for base, sub, comp, pre, canc, blk in itertools.product(bases, subs, comps, pres, cancs, blks):
+        yield spec, [dict(o) for o in base] + [R(submitted=sub, completed=comp, pre=pre, canceled=canc, blocked=blk,
+                                                 hpc=["100"], batch=3, new_rows=comp)]
